@@ -262,6 +262,18 @@ def check_cases(ctx, cases):
         if not cw.sane_run(ctx, c, PROP):
             continue
         bad = monitor(c) or state_monitor(c)
+        if not bad and c.parent_model is not None and "error" not in c.parent_model and not cw.stateful(c.world) \
+                and not c.opts.get("stopOnError") and not c.obs.timeout:
+            # "the remaining layers run in fresh subprocesses": every test the model starts (in whichever process) is
+            # started by some process of the real run
+            real_started = {e["t"] for e in c.obs.events if e.get("ev") == "tstart"}
+            model_started = {e[1] for m_ in [c.parent_model] + list(c.child_models.values()) if "error" not in m_
+                             for e in m_["trace"] if e[0] == "tstart"}
+            lost = sorted(model_started - real_started)
+            if lost:
+                tests_ = {t["id"]: t for t in c.world["tests"]}
+                bad = "C01: test(s) %r of layer(s) %r never started in any process of the run" % (
+                    ["t%d" % t for t in lost[:6]], sorted({worlds.layer_name(c.world, tests_[t]["layer"]) for t in lost}))
         if bad:
             ctx.violation(bad + " (opts %r)" % d["opts"], c.replay_obj(), signature="C01:" + bad.split(":")[1][:30])
             continue
